@@ -489,7 +489,7 @@ class GeminiServerProtocol(asyncio.Protocol):
             # Send the response
             self._send_response(response)
 
-        except Exception as e:
+        except (Exception, asyncio.CancelledError) as e:
             logger.error(
                 "async_handler_error",
                 client_ip=client_ip,
@@ -530,7 +530,7 @@ class GeminiServerProtocol(asyncio.Protocol):
             else:
                 self._route_request(request, client_ip)
 
-        except Exception as e:
+        except (Exception, asyncio.CancelledError) as e:
             logger.error(
                 "middleware_error",
                 client_ip=client_ip,
@@ -730,7 +730,7 @@ class GeminiServerProtocol(asyncio.Protocol):
 
             self._send_response(response)
 
-        except Exception as e:
+        except (Exception, asyncio.CancelledError) as e:
             logger.error(
                 "titan_upload_error",
                 client_ip=client_ip,
